@@ -13,7 +13,7 @@ pub fn heap_budget(n: usize) -> usize {
     640 * n + 16 * 1024
 }
 /// time budget for one input in this (debug-assertion) build
-pub const TIME_BUDGET_MS: u128 = 1000;
+pub const TIME_BUDGET_MS: u128 = 4000;
 
 pub fn parse_case(b: &[u8], tag: &str) -> Case {
     let bb = b.to_vec();
